@@ -2,7 +2,28 @@
 from specs import chunker
 
 LEVEL = 'proof'
-UNITS = [chunker.next_cut_unit('C10'), chunker.next_cut_frame('C10'), chunker.call_unit('C10')]
-BOUNDED = []
-TRUSTED = []
-ASSUMPTIONS = []
+UNITS = [chunker.next_cut_unit('C10'), chunker.next_cut_frame('C10'), chunker.call_unit('C10'), chunker.c10_lemmas('C10')]
+BOUNDED = [
+    {'name': 'C10.so_conformance', 'script': 'bounded/c10_conformance.py', 'timeout': 900,
+     'bound': 'shipped .so through the real adapter: all 1<=min<=max<=9 (thorough: 12) with an aligned length in range; '
+              'stream lengths {0..7, min, max-1..max+1, 2max-1..2max+1, 3max+2}; ALL segmentations of streams <= 7 bytes, '
+              'seeded random ones above; 2 (thorough: 3) keys'},
+]
+TRUSTED = [
+    'vf symbolic executor + cvc front end (/verif/vf/cxx.py): C++ subset -> Python ast translation as stated in its docstring',
+    'z3 5.1, cvc5 1.0.3',
+    'the shipped _replicat_adapters*.so is a build product that cannot be regenerated offline (no pybind11 headers): the proof is about src/adapters.cpp, the bounded stand-in runs the shipped binary',
+]
+ASSUMPTIONS = [
+    'key() is a pure function of the key material and of the 8-byte window named by its single load intrinsic (CLMUL arithmetic uninterpreted)',
+    'size_t values below 2**62 (no wrap-around in 2*max, max+min, min+3); machine integers otherwise treated as mathematical',
+    'bytearray slicing / del semantics as modelled (value semantics: the buffer is not aliased in the unit)',
+    'the iterator protocol: next(it, None) returns each piece once, then None',
+]
+MANIFEST = {
+    'text': 'Deductive proof from the C++ source of next_cut (range, productivity, bounds+alignment outside the tail, in-bounds reads, frame) for all sizes, parameters and buffers, '
+            'and of the Python adapter against that contract (lossless for every segmentation incl. empty pieces, non-empty chunks, termination, final flag), plus lemmas for the tail zone and segmentation independence.',
+    'note': 'Trusted: vf engine + C++ mini front end, SMT solvers; CLMUL hash uninterpreted. Open known finding D4 (reads past the buffer when max_length % 4 != 0) is reported by the proof (split obligation) and reproduced natively by the .so conformance stand-in.',
+    'technique': 'contract-based deductive verification: sidecar contracts + loop invariants on the real functions (Python AST and a mini C++ front end), VCs by symbolic execution, discharged by z3/cvc5',
+    'design_ref': 'DESIGN.md 6/C10',
+}
